@@ -5,8 +5,8 @@ from .c01 import fix_disagreements
 
 MODULES = ['DsdVerif.Props.C05']
 GEN_FILES = []
-THEOREM_NAMES = ['collect_keeps_reachable', 'collect_drops_unreachable', 'drop_releases', 'query_no_edges']
-THEOREMS = []
+THEOREM_NAMES = ['reachable_sound', 'reachable_complete', 'collect_keeps_reachable', 'collect_drops_unreachable', 'drop_releases', 'query_no_edges', 'setTurns_no_edges', 'refused_adds_no_edges']
+THEOREMS = ['Dsd.C05.' + t for t in THEOREM_NAMES]
 ASSUMPTIONS = [
     'CPython reference counting, the cyclic garbage collector and WeakValueDictionary are modelled as: an object is live exactly while it '
     'is reachable from a user handle through containment edges (complex -> its domains, strand -> domains, macrostate -> complexes, '
